@@ -55,7 +55,8 @@ theorem importBinStep_record {E : Type} (g : Guards) (A : Alg E) (term : E) (sup
     (hts : levelOfId 1 all t.natAbs = levelMax ∨ levelOfId 1 all t.natAbs ∈ supp)
     (hes : levelOfId 1 all e.natAbs = levelMax ∨ levelOfId 1 all e.natAbs ∈ supp)
     (hlt : A.level te = tlev supp slm (levelOfId 1 all t.natAbs))
-    (hle : A.level ee = tlev supp slm (levelOfId 1 all e.natAbs)) :
+    (hle : A.level ee = tlev supp slm (levelOfId 1 all e.natAbs))
+    (hcl : ∀ x, A.level (A.complement x) = A.level x) :
     importBinStep g A term (mkLevelSuppvarMap numLevels slm) slm nodeId acc
         (binNodeRecord 1 supp all nodeId n ++ r)
       = .ok (A.reduce (tlev supp slm n.level) [te, if e < 0 then A.complement ee else ee], r) := by
@@ -111,12 +112,16 @@ theorem importBinStep_record {E : Type} (g : Guards) (A : Alg E) (term : E) (sup
   rw [← hec, readIdx_binIdx g e.natAbs nodeId _ hepos helt hid]
   simp only [hee]
   -- the variable index
-  have hres : resolveVid g vc.1 (vidRead vc) (min (A.level te) (A.level ee))
+  have hle' : A.level (if decide (e < 0) = true then A.complement ee else ee) = tlev supp slm Le := by
+    split
+    · rw [hcl]; exact hle
+    · exact hle
+  have hres : resolveVid vc.1 (vidRead vc) (min (A.level te) (A.level (if decide (e < 0) = true then A.complement ee else ee)))
       (mkLevelSuppvarMap numLevels slm) slm = .ok (suppIdx supp n.level) := by
-    rw [hlt, hle, min_tlev M Lt Le hts hes, ← hvc]
+    rw [hlt, hle', min_tlev M Lt Le hts hes, ← hvc]
     by_cases hmin : min Lt Le = levelMax
     · simp only [hmin, ne_eq, not_true_eq_false, ↓reduceIte, tlev_levelMax]
-      exact resolveVid_varCodeOf_none g _ _ _ hvi
+      exact resolveVid_varCodeOf_none _ _ _ hvi
     · simp only [ne_eq, hmin, not_false_eq_true, ↓reduceIte]
       have hmem : min Lt Le ∈ supp := by
         by_cases hab : Lt ≤ Le
@@ -130,7 +135,7 @@ theorem importBinStep_record {E : Type} (g : Guards) (A : Alg E) (term : E) (sup
         by_cases hab : Lt ≤ Le
         · rw [Nat.min_eq_left hab]; exact hLt
         · rw [Nat.min_eq_right (by omega)]; exact hLe
-      apply resolveVid_varCodeOf_some g _ _ _ _ _ hvi (suppIdx_strictMono supp _ _ hlt' hL)
+      apply resolveVid_varCodeOf_some _ _ _ _ _ hvi (suppIdx_strictMono supp _ _ hlt' hL)
       · have := M.hnl; omega
       · rw [em]
         exact mkLevelSuppvarMap_getElem? numLevels slm M.hslm _ hm (by rw [← em]; exact bm)
@@ -141,8 +146,8 @@ theorem importBinStep_record {E : Type} (g : Guards) (A : Alg E) (term : E) (sup
   -- level check
   have c1 : ¬ (slm[suppIdx supp n.level] ≥ A.level te) := by
     rw [hlt, ← evi]; have := tlev_strict M n.level Lt hL hts hLt; omega
-  have c2 : ¬ (slm[suppIdx supp n.level] ≥ A.level ee) := by
-    rw [hle, ← evi]; have := tlev_strict M n.level Le hL hes hLe; omega
+  have c2 : ¬ (slm[suppIdx supp n.level] ≥ A.level (if decide (e < 0) = true then A.complement ee else ee)) := by
+    rw [hle', ← evi]; have := tlev_strict M n.level Le hL hes hLe; omega
   simp only [c1, c2, decide_false, Bool.or_self, Bool.false_eq_true, ↓reduceIte, evi]
   simp
 
